@@ -4,13 +4,15 @@ from autobean_refactor import token_store as ts
 
 CASES = {'quick': 4000, 'thorough': 100000}
 GATES = {
-    'quick': {'evaluations': 50000, 'ops_multi_block_removed': 1500, 'ops_removed_ge_lf': 3000, 'histories': 3000},
+    'quick': {'live_tokens_offered': 3000, 'evaluations': 50000, 'ops_multi_block_removed': 1500, 'ops_removed_ge_lf': 3000, 'histories': 3000},
     'thorough': {'evaluations': 5000000, 'ops_multi_block_removed': 100000, 'histories': 90000},
 }
 RULE = ('case = one random history (40-200 ops; thorough up to 300) on a raw TokenStore with load factor 2..12 (thorough: ..50) '
         'and initial size 0..7*LF+1, mirrored on a Python list; one evaluation = one M1 comparison (iteration identity, len, '
         'first/last, prev/next of every token, membership handle, sampled sub-range iteration, removed tokens detached) after a '
-        'store mutator; non-trivial = the mutator changed the sequence; distinct = hash(load factor, initial size, op-log prefix). '
+        'store mutator. One op in thirteen offers the store a token it already holds outside the replaced range (the token just after the '
+        'range, the reference itself, a random one; alone or with a new token): it must be refused with ValueError, nothing applied. '
+        'Non-trivial = the mutator changed the sequence; distinct = hash(load factor, initial size, op-log prefix). '
         'Sub-counts: removed range spanning >=2 blocks, removed range >= LF tokens, block split/merge events seen by the '
         'instrumented _split_block/_merge_blocks.')
 ASSUMPTIONS = ['load factor patched through the module constants exactly as the repository test does',
@@ -66,6 +68,13 @@ def run_case(col, r, idx):
         if len(info['removed']) >= lf:
             col.count('ops_removed_ge_lf')
         tag = f'{op}{"(multi-block)" if multi else ""}'
+        if op == 'live':
+            col.count('live_tokens_offered')
+            if info.get('live_accepted'):
+                col.violation(f'live-token-accepted:{info["live"]}', f'{info["live"]} accepted a token that is already in the store outside '
+                              f'the replaced range (or applied half of the batch before refusing)',
+                              {'lf': lf, 'init': h.init_sizes, 'log': h.log[-6:]})
+                return
         if info.get('still_attached') or info.get('not_empty'):
             col.violation('remove-all:' + ('still-attached' if info.get('still_attached') else 'not-empty'),
                           f'after removing every token (lf={lf}) the store is not empty or tokens keep a handle',
